@@ -18,6 +18,8 @@ def _one(ctx, sc, entry, stats, sample=False):
     ctx.inc("calls", len(recs))
     f = sc.get("fault")
     prop = bool(f and f.get("kind") == "cb")
+    if prop and f["cb"] == "astart" and f["exc"] == "AbortRetryError":
+        prop = False  # a cooperative abort raised by the attempt-start hook must be REPORTED (ABORTED outcome), not propagated
 
     def orc(v, st):
         return O.o_outcome(v, st, propagating=prop)
@@ -32,7 +34,9 @@ def _one(ctx, sc, entry, stats, sample=False):
         kind, val = rec.final
         sr = getattr(getattr(val, "stop_reason", None), "value", None) if kind == "return" else "raised"
         ctx.cell("outcome", how, sr or "-", lf.cause if lf else "-", "async" if entry.startswith("a") else "sync")
-        if how == "aborted" and s is not None:
+        if how == "aborted" and any(e_[0] == "fault" and e_[1] == "astart" for e_ in rec.trace):
+            ctx.cell("abort_position", "start-hook")
+        elif how == "aborted" and s is not None:
             # where in the segment did the abort come from
             pos = next((i for i, p in enumerate(s.polls) if p[2]), None)
             ctx.cell("abort_position", "op-raised" if s.kind == "sp" else ("handler" if pos is None else f"poll#{pos}-after-failure"))
@@ -89,6 +93,15 @@ def work(ctx, tier):
         for e in common.pick_entries(rng, entries, 2):
             _one(ctx, sc, e, stats)
         ctx.inc("callback_fault_scenarios")
+    # cooperative abort raised by on_attempt_start before attempt k: reported as ABORTED, attempts = invocations so far
+    m2 = (500 if tier == "quick" else 12000) // ctx.nshards
+    for k in range(m2):
+        sc = gen.rand_scenario(rng, p_special=0.0, p_budget=0.2, p_handler=0.2, p_abort=0.0)
+        sc["place"]["hooks"] = rng.choice(["call", "policy", "both"])
+        sc["fault"] = {"kind": "cb", "cb": "astart", "at": rng.randint(0, 3), "exc": "AbortRetryError"}
+        for e in common.pick_entries(rng, entries, 3):
+            _one(ctx, sc, e, stats)
+        ctx.inc("start_hook_abort_scenarios")
     common.flush_stats(ctx, stats)
 
 
@@ -105,6 +118,7 @@ def conclude(ctx):
         floors[f"value/{fam}"] = (sum(v for k, v in cells.items() if k.startswith("outcome:value/") and k.endswith(fam)), 100)
     floors["caller_callback_errors_propagated"] = (ctx.cnt["caller_callback_errors_propagated"], 20)
     floors["outcomes_checked"] = (ctx.cnt["outcomes_checked"], 3000)
+    floors["abort_position:start-hook"] = (ctx.cnt["abort_position:start-hook"], 30)
     return dict(
         rule=(
             "sweep + random mixed histories + systematic abort-at-every-poll-index over the 6 execute() entry points, incl. no-retry policies, breaker rejections, "
